@@ -306,7 +306,7 @@ def run_grid(cs):
 def run(ctx):
     cs = cells()
     # 1. theorems
-    pr = vlib.coq_props('C20', translators=['dir_guards'])
+    pr = vlib.coq_props('C20', translators=['dir_guards', 'opt_names'])
     ctx.cov.update(obligations=len(pr['theorems']), discharged=pr['discharged'], theorems=pr['theorems'],
                    axioms=pr['axioms'],
                    checker_cmd='make -C /verif/coq props/C20.vo (coqc 8.16.1) + Print Assumptions',
@@ -317,14 +317,24 @@ def run(ctx):
     # 3. model outcomes for the same cells
     mcells = [c for c in cs if c[1] is not None]
     body = vlib.list_lit([t for _, t, _ in mcells])
-    text = (vlib.HEADER_CASES + 'From PA Require Import model.Dispatch proofs.DispatchProofs.\n'
+    # the candidate "bad" values must really lie outside the documented sets of model/OptNamesDoc.v
+    DOC = dict(BadMethod='doc_transform_methods', BadOrigin='doc_origin_methods', BadCrop='doc_crop_names',
+               BadSymMethod='doc_symmetrize_names', DaunRegString='doc_daun_reg_strings',
+               DaunRegTuple='doc_daun_reg_types', RbasexReg='doc_rbasex_reg_strings',
+               RbasexRegTuple='doc_rbasex_reg_types', RbasexOut='doc_rbasex_out_names', RbasexRmax='doc_rmax_names')
+    outside = ' && '.join('all_outside [%s]%%string %s' % (
+        '; '.join('"%s"' % (v[0] if isinstance(v, tuple) else v) for v in BAD_VALUES[k]), d) for k, d in sorted(DOC.items()))
+    text = (vlib.HEADER_CASES + 'From Coq Require Import String.\n'
+            'From PA Require Import model.Dispatch proofs.DispatchProofs model.OptNamesDoc.\n'
             'Definition cells : list request := %s.\n'
             'Eval vm_compute in (map (fun r => outcome_code (outcome_of r)) cells).\n'
-            'Eval vm_compute in (if requests_eqb cells all_requests then [1] else [0]).\n' % body)
+            'Eval vm_compute in (if requests_eqb cells all_requests then [1] else [0]).\n'
+            'Eval vm_compute in (if (%s)%%bool then [1] else [0]).\n' % (body, outside))
     rc, out = vlib.coq_eval('C20_cells', text)
     lists = vlib.parse_eval_lists(out)
-    model = vlib.parse_nat_list(lists[0]) if (rc == 0 and len(lists) == 2) else None
-    same_space = (rc == 0 and len(lists) == 2 and vlib.parse_nat_list(lists[1]) == [1])
+    model = vlib.parse_nat_list(lists[0]) if (rc == 0 and len(lists) == 3) else None
+    same_space = (rc == 0 and len(lists) == 3 and vlib.parse_nat_list(lists[1]) == [1])
+    cands_outside = (rc == 0 and len(lists) == 3 and vlib.parse_nat_list(lists[2]) == [1])
     # outcome_code: 0 Raise, 1 Performs forward, 2 Performs inverse
     CODE = {0: 'raise', 1: 'forward', 2: 'inverse'}
     hits = []
@@ -360,6 +370,8 @@ def run(ctx):
         ctx.report_broken('proof', pr['broken'] or 'props/C20.v', pr['error'] or '')
     if model is None and new == 0:
         ctx.report_broken('correspondence', 'model/Dispatch.v could not be evaluated', out[-1500:])
+    elif not cands_outside and new == 0:
+        ctx.report_broken('correspondence', 'candidate bad option values of tools/props/C20.py are not all outside the documented sets of model/OptNamesDoc.v', '')
     elif not same_space and new == 0:
         ctx.report_broken('correspondence', 'request grid of tools/props/C20.py differs from all_requests of model/Dispatch.v', '')
     elif disagreements and new == 0:
